@@ -78,9 +78,14 @@ let run_deque toks lines =
       " | " ^ obs_deque !cur !a ^ (match !oth with Some o -> " || " ^ obs_deque o !a | None -> "") ^ ledger !a in
     let ideal () =
       " | " ^ ideal_deque !il !cur.dq_cap ^ (match !oth, !iol with Some o, Some l -> " || " ^ ideal_deque l o.dq_cap | _ -> "") in
-    let emit m i = Printf.printf "%s%s ## %s%s\n" m (obs ()) i (ideal ()) in
+    (* [tag]: set before a step that runs one of the cc_deque_add_at branches the model classifies as defective
+       (known finding D17); printed as " @d17" on the model part so that the finding's signature names exactly
+       those branches and a NEW defect of add_at in a sound branch is not mistaken for the known one *)
+    let tag = ref "" in
+    let emit m i = Printf.printf "%s%s%s ## %s%s\n" m (obs ()) (if !tag = "" then "" else " @" ^ !tag) i (ideal ()); tag := "" in
     let plain m = Printf.printf "%s%s\n" m (obs ()) in
     let same m = emit m m in
+    let mark d idx = if N.ltb idx d.dq_size && not (add_at_branch_ok d idx) then tag := "d17" in
     emit ("new " ^ stat_name s) "new OK";
     let outs vs = String.concat "" (List.map (fun v -> " " ^ string_of_n v) vs) in
     let step op o fmt =
@@ -112,7 +117,7 @@ let run_deque toks lines =
         (match op with
          | "add_first" -> step op (OAddFirst (arg args 0)) outs
          | "add_last" | "add" -> step op (OAddLast (arg args 0)) outs
-         | "add_at" -> step op (OAddAt (arg args 0, arg args 1)) outs
+         | "add_at" -> mark !cur (arg args 1); step op (OAddAt (arg args 0, arg args 1)) outs
          | "replace_at" -> step op (OReplaceAt (arg args 0, arg args 1)) outs
          | "remove" -> step op (ORemove (arg args 0)) outs
          | "remove_at" -> step op (ORemoveAt (arg args 0)) outs
@@ -171,6 +176,7 @@ let run_deque toks lines =
                   (op ^ " " ^ stat_name s2 ^ outs (match v2 with Some v -> [v] | None -> []))
          | "iter_add" ->
              let i = (match !it with Some i -> i | None -> dq_iter_init) in
+             mark !cur i.it_index;
              let (((s, d'), i'), a') = ok (dq_iter_add !cur i (arg args 0) !a) in
              let ((s2, l'), ii') = if s = CC_ERR_ALLOC then ((CC_ERR_ALLOC, !il), !iit) else spec_iter_add !il !iit (arg args 0) in
              cur := d'; it := Some i'; a := a'; il := l'; iit := ii';
@@ -207,6 +213,7 @@ let run_deque toks lines =
                   emit (op ^ " " ^ stat_name s ^ pair v) i
               | "zip_add" ->
                   let e1 = arg args 0 and e2 = arg args 1 in
+                  mark !cur z.it_index; mark o z.it_index;
                   let ((((s, d1), d2), z'), a') = ok (dq_zip_add !cur o z e1 e2 !a) in
                   cur := d1; oth := Some d2; zit := Some z'; a := a';
                   let i = if short idx then op ^ " ERR_OUT_OF_RANGE"
